@@ -43,6 +43,12 @@ func TestC12_Ramp(t *testing.T) {
 	rapid.Check(t, func(t *rapid.T) {
 		F := rapid.SampledFrom(cbh.MsGrid[2:10]).Draw(t, "fallback")
 		R := rapid.SampledFrom(cbh.MsGrid[2:10]).Draw(t, "recovery")
+		switch rapid.IntRange(0, 11).Draw(t, "oddRecovery") {
+		case 0: // decades: products of nanoseconds and request counts leave the int64 range
+			R = rapid.SampledFrom([]time.Duration{20 * 365 * 24 * time.Hour, 5 * 365 * 24 * time.Hour, 24 * time.Hour}).Draw(t, "hugeRecovery")
+		case 1: // not a whole number of milliseconds
+			R = rapid.SampledFrom([]time.Duration{1500 * time.Microsecond, 2500 * time.Microsecond, 10*time.Millisecond + 300*time.Microsecond}).Draw(t, "fracRecovery")
+		}
 		P := rapid.SampledFrom(cbh.MsGrid[0:5]).Draw(t, "checkPeriod")
 		phase := time.Duration(rapid.Int64Range(0, int64(time.Second)-1).Draw(t, "phase"))
 		d := cbh.New(t, "NetworkErrorRatio() > 0.5", F, R, P, phase)
